@@ -21,7 +21,14 @@ func writeGobFile(fsys fs.FileSystem, name string, v interface{}) error {
 	if err != nil {
 		return err
 	}
-	defer f.Close()
 	enc := gob.NewEncoder(f)
-	return enc.Encode(v)
+	if err := enc.Encode(v); err != nil {
+		_ = f.Close()
+		return err
+	}
+	if err := f.Sync(); err != nil {
+		_ = f.Close()
+		return err
+	}
+	return f.Close()
 }
